@@ -2,6 +2,7 @@ mod envelope;
 mod exact;
 mod explore;
 mod props;
+mod rayon_seam;
 mod refmodels;
 mod report;
 mod subjects;
